@@ -447,9 +447,10 @@ Fixpoint compare_types (fx : fixes) (nm om : list (string * Z)) (n o : ty) {stru
   match o with
   | TNat _ => Accept
   | TRef oname obare oargs =>
-    if ref_mismatch nm om (ty_name n) oname || (fx_bare fx && negb (Bool.eqb (ty_bare n) obare))
+    if ref_mismatch nm om (ty_name n) oname
+       || (fx_bare fx && negb (Bool.eqb (ty_bare n) obare))                  (* repair F2: one more disjunct *)
+       || (fx_args fx && (length (ty_args n) <? length oargs)%nat)           (* repair F3: one more disjunct *)
     then Reject RRefChanged
-    else if fx_args fx && (length (ty_args n) <? length oargs)%nat then Reject RArgChanged
     else compare_args (compare_types fx nm om) oargs (ty_args n)
   end.
 
